@@ -115,6 +115,15 @@ def pad (s pw : List Nat) : Option (List Nat) :=
     some ((List.range s.length).map (fun k => s.getD k 0 + pw.getD k 0 + pw.getD (s.length + k) 0))
   else none
 
+/-- `np.matmul(a, b).shape` for operands of rank ≥ 2: the last two axes contract, the leading (batch) axes broadcast -/
+def matmulShape (a b : List Nat) : Option (List Nat) :=
+  if a.length < 2 ∨ b.length < 2 then none
+  else
+    let (ba, ma) := (a.take (a.length - 2), a.drop (a.length - 2))
+    let (bb, mb) := (b.take (b.length - 2), b.drop (b.length - 2))
+    if ma.getD 1 0 ≠ mb.getD 0 0 then none
+    else (broadcastShape ba bb).map (fun r => r ++ [ma.getD 0 0, mb.getD 1 0])
+
 /-- length of the Python slice `start:stop:step` on an axis of extent `n`, for `0 ≤ start, stop ≤ n`, `step ≥ 1`
     (absent entries default to `0`, `n`, `1`) -/
 def sliceLen (n : Nat) (start stop step : Option Nat) : Nat :=
